@@ -27,7 +27,7 @@ RULE = ("continuous and grid worlds, wrapping and not; 0-8 agents on a coarse la
         "; also: continuous extents in (0,1), rejected duplicate placements between queries, wrap_env reassigned, worlds that are not model.environment, model lifecycle ops, agents carrying own components incl. a PositionComponent subclass with another location, agents that are environments themselves, stretches of the history issued from inside a running timestep, grid worlds with agents on half-cell positions, infinite leeways")
 COMPONENTS = {"real": ["ECAgent.Environments.SpaceWorld.get_agents_at", "add_agent / move / move_to / remove_agent"],
               "stub": ["agents are plain ECAgent agents created by the harness"]}
-PROBES = ["integer_leeway_beyond_the_float_range", "axis_leeway_larger", "general_leeway_larger", "negative_leeway", "empty_answer", "coincident_agents",
+PROBES = ["earlier_answers_still_held", "integer_leeway_beyond_the_float_range", "axis_leeway_larger", "general_leeway_larger", "negative_leeway", "empty_answer", "coincident_agents",
           "query_outside_world", "seam_crossing_box", "agent_on_face", "wrap_world", "moved_since_placement", "rejected_duplicate_add", "model_lifecycle_op", "wrap_mode_switched", "agent_with_position_subclass_component", "agent_is_an_environment", "ops_from_inside_a_timestep",
           "grid_world_with_half_cell_positions", "infinite_leeway", "history_continued_on_a_copy", "leeways_left_to_their_defaults"]
 TECHNIQUE = "deterministic simulation: positional queries inside seeded move/remove histories vs an exact geometric filter (seam-aware in wrapping worlds)"
@@ -114,6 +114,7 @@ def execute(sc, ctx):
     pos = {}      # joining order preserved (dict)
     moved = set()
     shape = []
+    held_answers = []
     flags = {"face": False, "moved": False, "three": False}
     if ref.wrap:
         ctx.probe("wrap_world")
@@ -179,6 +180,18 @@ def execute(sc, ctx):
                       lambda: f"get_agents_at{rp} leeways {rl} in {sc['world']} returned {ids}, exact filter {want}; "
                               f"positions { {agents[k].id: get_pos(agents[k]) for k in pos} }")
             ctx.check([(a.id, get_pos(a)) for a in env] == before, "query-altered-environment", "")
+            # an answer belongs to the caller: answers still held from earlier queries are lists of their own and stay as they were
+            # whatever is searched afterwards (another box, a listing, a pick)
+            if held_answers:
+                ctx.probe("earlier_answers_still_held")
+                if len(held_answers) % 2:
+                    env.get_agents()
+            for h_list, h_ids in held_answers:
+                ctx.check(h_list is not got and [a.id for a in h_list] == h_ids, "earlier-answer-changed",
+                          lambda: f"an answer handed out earlier ({h_ids}) reads {[a.id for a in h_list]} after a later search"
+                                  f"{' (it is the very list just returned)' if h_list is got else ''}")
+            held_answers.append((got, list(ids)))
+            del held_answers[:-3]
             if seam:
                 ctx.probe("seam_crossing_box")
             if onface:
